@@ -168,6 +168,10 @@ JOBS = [
     Job('Accumulator.times_int', 'Accumulator::operator*=', ['C16', 'C08', 'C13'], select=r'^\s*int n\s*$', cname='Accumulator_times_int', timeout=300,
         rewrites=[(r'return \*this;', 'return self;')],
         description='multiply the accumulator by an integer: frame, -1 negates both words exactly, 1 is the identity, NaN rule'),
+    Job('Accumulator.plus_eq', 'Accumulator::operator+=', ['C16', 'C08', 'C13'], cname='Accumulator_plus_eq', replace=['Accumulator::Add'], timeout=300,
+        rewrites=[(r'return \*this;', 'return self;')], description='acc += y is exactly one Add(y)'),
+    Job('Accumulator.minus_eq', 'Accumulator::operator-=', ['C16', 'C13'], cname='Accumulator_minus_eq', replace=['Accumulator::Add'], timeout=300,
+        rewrites=[(r'return \*this;', 'return self;')], description='acc -= y is exactly one Add(-y)'),
     # ---- polygon area (C08)
     Job('PolygonArea.transitdirect', 'PolygonAreaT::transitdirect', ['C08', 'C14'], timeout=900, sat='cadical', description='crossing parity for unrolled (direct) edges'),
     Job('PolygonArea.transitdirect.full', 'PolygonAreaT::transitdirect', ['C08'], timeout=3600, sat='cadical', tier='thorough', defines=['TD_MAXTURNS=1073741824'],
